@@ -22,3 +22,23 @@ fn c12_line_column() {
     kani::cover!(n == 4 && bytes[0] >= 0xC0 && off == 4, "multi-byte prefix reached");
     std::mem::forget(e);
 }
+
+/// the same claim on strings of <= 2 bytes: a cheap harness that still finishes when the implementation uses heavier std machinery
+#[kani::proof]
+#[kani::unwind(4)]
+#[kani::stub(std::rc::Rc::drop_slow, rc_drop_slow_stub)]
+fn c12_line_column_small() {
+    let bytes: [u8; 2] = kani::any();
+    let n: usize = kani::any();
+    kani::assume(n <= 2);
+    let s = match std::str::from_utf8(&bytes[..n]) { Ok(s) => s, Err(_) => { kani::assume(false); return; } };
+    let off: usize = kani::any();
+    kani::assume(off <= n && s.is_char_boundary(off));
+    let e = JmespathError::new(s, off, ErrorReason::Parse(String::new()));
+    let mut line = 0usize; let mut col = 0usize;
+    for (i, c) in s.char_indices() { if i >= off { break; } if c == '\n' { line += 1; col = 0; } else { col += 1; } }
+    kani::assert(e.line == line, "line = number of newlines before the offset");
+    kani::assert(e.column == col, "column = characters since the last newline before the offset");
+    kani::cover!(line == 1, "second line reached");
+    std::mem::forget(e);
+}
